@@ -36,6 +36,49 @@ DIMS = [(2, 2), (3, 3), (4, 4), (5, 5), (7, 7), (8, 8), (9, 9), (4, 6), (6, 4), 
 
 
 # ---------------------------------------------------------------------------------------------
+# zero_padding / num_oversampling: value (scalar or per-axis pair) and the way the argument is spelled
+
+def qxy(case):
+    if case['kind'] == 'angular':
+        return (2.0, 2.0)
+    q = case['q']
+    return (float(q[0]), float(q[1])) if isinstance(q, (list, tuple)) else (float(q), float(q))
+
+
+def sxy(case):
+    s = case['s']
+    return (int(s[0]), int(s[1])) if isinstance(s, (list, tuple)) else (int(s), int(s))
+
+
+def unpadded(case):
+    return case['kind'] == 'fresnel' and qxy(case) == (1.0, 1.0) and sxy(case) == (1, 1)
+
+
+def spell(value, how, integer=False):
+    """The Python object handed to hcipy for a scalar or per-axis value."""
+    if isinstance(value, (list, tuple)):
+        v = [int(x) for x in value] if integer else [float(x) for x in value]
+        if integer is False and how == 'intarray' and all(float(x).is_integer() for x in v):
+            return np.array([int(x) for x in v])
+        return {'list': list(v), 'tuple': tuple(v)}.get(how, np.array(v))
+    if integer:
+        return {'float': float(value), 'np': np.int64(value), '0d': np.array(int(value))}.get(how, int(value))
+    if how == 'int' and float(value).is_integer():
+        return int(value)
+    return {'np': np.float64(value), '0d': np.array(float(value))}.get(how, float(value))
+
+
+def _vkey(v):
+    return tuple(v) if isinstance(v, (list, tuple)) else v
+
+
+def _vtext(v, integer=False):
+    if isinstance(v, (list, tuple)):
+        return '[%s,%s]' % ((str(int(v[0])), str(int(v[1]))) if integer else (rat(float(v[0])), rat(float(v[1]))))
+    return str(int(v)) if integer else rat(float(v))
+
+
+# ---------------------------------------------------------------------------------------------
 # exact regime arithmetic (harness side, Fractions)
 
 def exact_regime(case):
@@ -48,16 +91,16 @@ def exact_regime(case):
     ir = dx < thr or dy < thr
     slack = min(dx, dy) - thr
     stated = (not ir) and dx >= lam / 2 and dy >= lam / 2
-    q = Fraction(2) if case['kind'] == 'angular' else Fraction(case['q'])
-    M = [int(np.round(float(q * nx))), int(np.round(float(q * ny)))]      # np.round: half to even
-    s = case['s']
-    dith = [Fraction(2 * j + 1, 2 * s) - Fraction(1, 2) for j in range(s)]
+    q = [Fraction(v) for v in qxy(case)]
+    M = [int(np.round(float(q[0] * nx))), int(np.round(float(q[1] * ny)))]      # np.round: half to even
+    ss = sxy(case)
 
-    def numax(d, m):
+    def numax(d, m, s):
+        dith = [Fraction(2 * j + 1, 2 * s) - Fraction(1, 2) for j in range(s)]
         lo = (Fraction(0) - m // 2 + dith[0]) / (d * m)
         hi = (Fraction(m - 1) - m // 2 + dith[-1]) / (d * m)
         return max(abs(lo), abs(hi))
-    minrad = (n / lam) ** 2 - numax(dx, M[0]) ** 2 - numax(dy, M[1]) ** 2
+    minrad = (n / lam) ** 2 - numax(dx, M[0], ss[0]) ** 2 - numax(dy, M[1], ss[1]) ** 2
     return {'thr': thr, 'ir': ir, 'slack': slack, 'stated': stated, 'M': M, 'minrad': minrad}
 
 
@@ -98,6 +141,30 @@ def gen_case(rng, big=False):
     else:
         q = 2.0
     s = [1, 1, 2, 2, 3][int(rng.integers(0, 5))]
+    qspell = sspell = None
+    r = rng.random()
+    if kind == 'fresnel' and r < 0.30:
+        # per-axis zero padding, including padding one axis only (x is the fastest axis: padding y only
+        # leaves the cut-out contiguous in memory)
+        q = [[1.0, 2.0], [2.0, 1.0], [1.0, 1.5], [1.5, 1.0], [1.0, 3.0], [2.0, 3.0], [1.0, 1.0]][int(rng.integers(0, 7))]
+        if rng.random() < 0.4:
+            q = [1.0, 1.0 + int(rng.integers(1, 2 * ny + 1)) / float(ny)]
+        qspell = ['array', 'intarray', 'list', 'tuple'][int(rng.integers(0, 4))]
+    elif kind == 'fresnel' and r < 0.42 and nx != ny:
+        # a non-integer scalar that rounds to "no padding" on the short axis and pads the long one
+        lo, hi = min(nx, ny), max(nx, ny)
+        q = 1.0 + 0.75 / hi
+        if not (round(q * lo) == lo and round(q * hi) == hi + 1):
+            q = 1.0 + 1.0 / hi
+        qspell = ['float', 'np', '0d'][int(rng.integers(0, 3))]
+    elif kind == 'fresnel':
+        qspell = ['float', 'float', 'int', 'np', '0d'][int(rng.integers(0, 5))]
+    r = rng.random()
+    if r < 0.2:
+        s = [[1, 2], [2, 1], [3, 1], [2, 2], [1, 3]][int(rng.integers(0, 5))]
+        sspell = ['array', 'list', 'tuple'][int(rng.integers(0, 3))]
+    else:
+        sspell = ['int', 'int', 'float', 'np', '0d'][int(rng.integers(0, 5))]
     if kind == 'fresnel' and rng.random() < 0.3:
         # the third clause: no padding, no oversampling, adequately sampled
         q, s = 1.0, 1
@@ -116,7 +183,7 @@ def gen_case(rng, big=False):
     z2 = z * [0.25, 0.5, 1.0][int(rng.integers(0, 3))]
     if abs(z) + abs(z2) > zmax and abs(z) < zmax:
         z2 = math.copysign(zmax - abs(z), z) if z != 0 else 0.0
-    return {'alias': alias, 'kind': kind, 'dims': [nx, ny], 'delta': [dx, dy], 'zero': zero, 'lam': lam, 'z': z, 'z2': z2, 'n': n, 'q': q, 's': s,
+    return {'alias': alias, 'kind': kind, 'dims': [nx, ny], 'delta': [dx, dy], 'zero': zero, 'lam': lam, 'z': z, 'z2': z2, 'n': n, 'q': q, 's': s, 'qspell': qspell, 'sspell': sspell,
             'wf': wf, 'stokes': stokes, 'fseed': int(rng.integers(0, 2 ** 31))}
 
 
@@ -139,6 +206,11 @@ def directed():
     for ratio in (0.5, 0.625, 0.6875):
         for z in (0.25, -0.25):
             cases.append(dict(base, kind='angular', dims=[8, 8], delta=[ratio, ratio], lam=1.0, z=z, z2=z, q=2.0, s=1))
+    # per-axis / one-axis padding and argument spellings; y-only padding keeps the cut-out contiguous
+    for q, qs in (([1.0, 2.0], 'array'), ([1.0, 2.0], 'intarray'), ([2.0, 1.0], 'array'), (1.03125, 'float'), (2.0, '0d'), (2.0, 'int'),
+                  ([1.0, 1.5], 'tuple'), ([2.0, 2.0], 'list')):
+        for s_, ss in ((1, 'int'), ([2, 1], 'array'), (2, 'float'), (2, '0d')):
+            cases.append(dict(base, kind='fresnel', dims=[16, 24], delta=[0.25, 0.25], lam=1 / 16, z=0.5, z2=0.25, q=q, s=s_, qspell=qs, sspell=ss))
     for c in cases:
         if c['zero'] is None:
             c['zero'] = [-c['delta'][0] * (c['dims'][0] - 1) / 2, -c['delta'][1] * (c['dims'][1] - 1) / 2]
@@ -177,8 +249,9 @@ def grid_snapshot(grid):
 def build_prop(case, grid, z):
     import hcipy
     if case['kind'] == 'fresnel':
-        return hcipy.FresnelPropagator(grid, z, num_oversampling=case['s'], zero_padding=case['q'], refractive_index=case['n'])
-    return hcipy.AngularSpectrumPropagator(grid, z, num_oversampling=case['s'], refractive_index=case['n'])
+        return hcipy.FresnelPropagator(grid, z, num_oversampling=spell(case['s'], case.get('sspell'), integer=True),
+                                       zero_padding=spell(case['q'], case.get('qspell')), refractive_index=case['n'])
+    return hcipy.AngularSpectrumPropagator(grid, z, num_oversampling=spell(case['s'], case.get('sspell'), integer=True), refractive_index=case['n'])
 
 
 def make_field(case, grid, salt):
@@ -233,7 +306,11 @@ def oracle_case(case, observe=None):
         fy = prop.forward(make_wavefront(case, y.copy()))
         by = prop.backward(make_wavefront(case, y.copy()))
     except Exception as e:
-        bad.append(('raises %s %s' % (type(e).__name__, tag), 'propagation raised %s: %s' % (type(e).__name__, e)))
+        if case.get('qspell') in ('list', 'tuple') and isinstance(case['q'], list):
+            bad.append(('zero_padding-sequence raises %s' % type(e).__name__,
+                        'zero_padding given as a %s raised %s: %s' % (case['qspell'], type(e).__name__, e)))
+        else:
+            bad.append(('raises %s %s' % (type(e).__name__, tag), 'propagation raised %s: %s' % (type(e).__name__, e)))
         return bad
     ex, ey = wf_field(case, x), wf_field(case, y)
     efx, efy, eby = np.asarray(fx.electric_field), np.asarray(fy.electric_field), np.asarray(by.electric_field)
@@ -263,7 +340,7 @@ def oracle_case(case, observe=None):
         d = float(np.abs(fm - bx).max())
         if not d <= TOL * max(1.0, float(np.abs(bx).max())):
             bad.append((pre + 'neg-z ' + tag, 'forward(-z) differs from backward(+z) by %.3g (z=%r)' % (d, z)))
-        if kind == 'fresnel' and case['q'] == 1.0 and case['s'] == 1:
+        if unpadded(case):
             if not abs(p_out - p_in) <= TOL * max(1.0, p_in):
                 bad.append(('unitary ' + tag, 'power %r -> %r with zero_padding=1, num_oversampling=1' % (p_in, p_out)))
             back = np.asarray(prop.backward(fx).electric_field)
@@ -301,9 +378,9 @@ def _close(a, b, tol=1e-11):
 
 
 def setup_line(case):
-    return 'C04 setup %s %d %d %s %s %s %s %s %s %d' % (
+    return 'C04 setup %s %d %d %s %s %s %s %s %s %s' % (
         case['kind'], case['dims'][0], case['dims'][1], rat(case['delta'][0]), rat(case['delta'][1]), rat(case['lam']),
-        rat(case['z']), rat(case['n']), rat(case['q']), case['s'])
+        rat(case['z']), rat(case['n']), _vtext(case['q']), _vtext(case['s'], integer=True))
 
 
 def model_requests(case, obs, rng, head=None):
@@ -316,7 +393,7 @@ def model_requests(case, obs, rng, head=None):
     for ix, iy in pix:
         lines.append('C04 tf %d %d' % (ix, iy))
     # impulse-response branch: the whole sampled impulse response (small internal grids only)
-    if obs['reg']['ir'] and case['z'] != 0 and M[0] * M[1] * case['s'] ** 2 <= IR_BUDGET:
+    if obs['reg']['ir'] and case['z'] != 0 and M[0] * M[1] * sxy(case)[0] * sxy(case)[1] <= IR_BUDGET:
         for jy in range(M[1]):
             lines.append('C04 ir %d' % jy)
     return lines, pix
@@ -345,7 +422,7 @@ def model_tf_value(case, kv):
 
 def model_ir_transfer_function(case, M, rows):
     """D on the centred internal grid from the model's exact impulse-response data (see Model/NearField.lean)."""
-    s2 = case['s'] ** 2
+    s2 = sxy(case)[0] * sxy(case)[1]
     H = np.zeros((M[1], M[0]), dtype=complex)
     lam, z, n = float(case['lam']), float(case['z']), float(case['n'])
     for jy, resp in enumerate(rows):
@@ -373,8 +450,7 @@ def compare_model(ctx, case, obs, pix, answers):
     model_M = [int(v) for v in parse_rat_list(kv['M'])]
     if real_M != model_M:
         # int(N * (round(qN)/N)) recomputed in floats one short: finding D4 (owned by C01)
-        q = 2.0 if case['kind'] == 'angular' else case['q']
-        expl = all(a == b or int(np.float64(n) * (np.round(q * n) / n)) == a for a, b, n in zip(real_M, model_M, case['dims']))
+        expl = all(a == b or int(np.float64(n) * (np.round(q * n) / n)) == a for a, b, n, q in zip(real_M, model_M, case['dims'], qxy(case)))
         if expl:
             ctx.count('skipped:float-truncated-padded-size(D4)')
             ctx.boundary_skipped += 1
@@ -466,6 +542,7 @@ def gen_session(rng, big=False):
     case = gen_case(rng, big)
     if case['kind'] == 'fresnel' and rng.random() < 0.4:
         case['q'], case['s'] = 1.0, 1
+        case['qspell'] = case['sspell'] = None
     nx, ny = case['dims']
     dx, dy = case['delta']
     ops = []
@@ -484,19 +561,20 @@ def gen_session(rng, big=False):
             elif name == 'refractive_index':
                 v = [1.0, 1.25, 1.5, 2.0][int(rng.integers(0, 4))]
             elif name == 'num_oversampling':
-                v = int(rng.integers(1, 4))
+                v = int(rng.integers(1, 4)) if rng.random() < 0.7 else [[1, 2], [2, 1], [3, 2]][int(rng.integers(0, 3))]
             elif name == 'zero_padding':
                 g = math.gcd(nx, ny)
-                v = [1.0, 2.0, 1.0 + 1.0 / g, 3.0][int(rng.integers(0, 4))]
+                v = [1.0, 2.0, 1.0 + 1.0 / g, 3.0, [1.0, 2.0], [2.0, 1.0], [1.0, 1.0 + 1.0 / ny]][int(rng.integers(0, 7))]
             else:
                 v = [1 / 16, 1 / 8, 1 / 4, 1 / 2, 1.0][int(rng.integers(0, 5))]
-            ops.append({'op': 'set', 'name': name, 'value': v})
+            sp = ['array', 'list', 'tuple'][int(rng.integers(0, 3))] if isinstance(v, list) else ['float', 'np', '0d', 'int'][int(rng.integers(0, 4))]
+            ops.append({'op': 'set', 'name': name, 'value': v, 'spell': sp})
             cur[SETTERS[name]] = v
         dt = 'c64' if style in ('precision', 'mixed') and rng.random() < 0.5 else 'c128'
         kind = 'fwd' if rng.random() < 0.65 else 'bwd'
         if style == 'roundtrip':
             kind = ['fwd', 'bwd'][i % 2]
-        ops.append({'op': kind, 'dtype': dt, 'salt': i})
+        ops.append({'op': kind, 'dtype': dt, 'salt': i, 'chain': bool(rng.random() < 0.3)})
     ops.append({'op': 'fwd', 'dtype': 'c128', 'salt': 0})
     return {'case': case, 'ops': ops, 'style': style}
 
@@ -535,12 +613,20 @@ def oracle_session(sess, observe=None):
     prop = build_prop(case, grid, case['z'])
     prev = 'fresh'
     last_fwd = None
+    kept = []
     for op in sess['ops']:
         if op['op'] == 'set':
             name, v = op['name'], op['value']
             cur[SETTERS[name]] = v
+            if name == 'zero_padding':
+                cur['qspell'] = op.get('spell')
+            if name == 'num_oversampling':
+                cur['sspell'] = op.get('spell')
             if name != 'wavelength':
-                setattr(prop, name, v)
+                try:
+                    setattr(prop, name, spell(v, op.get('spell'), integer=(name == 'num_oversampling')) if name in ('zero_padding', 'num_oversampling') else v)
+                except Exception as e:
+                    bad.append(('reuse raises %s setter' % type(e).__name__, 'setting %s raised %s: %s' % (name, type(e).__name__, e)))
             prev += '>set-' + name
             continue
         dtype = np.complex64 if op['dtype'] == 'c64' else np.complex128
@@ -553,10 +639,19 @@ def oracle_session(sess, observe=None):
             got = getattr(prop, method)(make_wavefront(cur, x.copy()))
             want = getattr(fresh, method)(make_wavefront(cur, x.copy()))
         except Exception as e:
-            bad.append(('reuse raises %s %s' % (type(e).__name__, tag), '%s raised %s: %s (history %s)' % (method, type(e).__name__, e, prev)))
+            if cur.get('qspell') in ('list', 'tuple') and isinstance(cur['q'], list):
+                bad.append(('zero_padding-sequence raises %s' % type(e).__name__, 'zero_padding given as a %s raised %s: %s' % (cur['qspell'], type(e).__name__, e)))
+            else:
+                bad.append(('reuse raises %s %s' % (type(e).__name__, tag), '%s raised %s: %s (history %s)' % (method, type(e).__name__, e, prev)))
             prev += '>' + op['op']
+            last_fwd = None
             continue
         g, w = np.asarray(got.electric_field), np.asarray(want.electric_field)
+        # results are values: everything returned earlier is still what it was, and nothing returned shares memory
+        # with an earlier result, with the input, or with the element's internal arrays
+        bad += results_still_valid(kept, 'after %s (history %s)' % (method, prev), tag)
+        bad += result_is_independent(prop, grid, cur, got, x, kept, tag, prev)
+        kept.append((got, g.copy(), '%s #%d' % (method, len(kept))))
         dev = float(np.abs(g - w).max())
         scale = max(1.0, float(np.abs(w).max()))
         had64 = '(c64)' in prev
@@ -567,7 +662,7 @@ def oracle_session(sess, observe=None):
                         % (method, prev, dev, scale, op['dtype'])))
         reg = exact_regime(cur)
         near = abs(reg['slack']) <= Fraction(1, 10 ** 7) * max(Fraction(cur['delta'][0]), Fraction(cur['delta'][1]))
-        if op['dtype'] == 'c128' and op['op'] == 'fwd' and reg['stated'] and not near and cur['kind'] == 'fresnel' and cur['q'] == 1.0 and cur['s'] == 1:
+        if op['dtype'] == 'c128' and op['op'] == 'fwd' and reg['stated'] and not near and unpadded(cur):
             # the third clause on the reused object itself
             ex = wf_field(cur, x)
             back = np.asarray(prop.backward(got).electric_field)
@@ -578,8 +673,22 @@ def oracle_session(sess, observe=None):
             p_in, p_out = float(make_wavefront(cur, x.copy()).total_power), float(got.total_power)
             if not abs(p_out - p_in) <= TOL * max(1.0, p_in):
                 bad.append(('reuse-unitary%s %s' % ('+earlier-c64' if had64 else '', tag), 'power %r -> %r on a reused propagator (history %s)' % (p_in, p_out, prev)))
+        if op.get('chain'):
+            # feed the result straight back into the same object
+            try:
+                got2 = getattr(prop, method)(got)
+                want2 = getattr(build_prop(cur, grid, cur['z']), method)(want)
+                g2, w2 = np.asarray(got2.electric_field), np.asarray(want2.electric_field)
+                d2 = float(np.abs(g2 - w2).max())
+                if not d2 <= tol * max(1.0, float(np.abs(w2).max())):
+                    bad.append(('reuse-chained-%s %s' % (method, tag), '%s(%s(x)) on one propagator differs from fresh propagators by %.3g (history %s)' % (method, method, d2, prev)))
+                bad += results_still_valid(kept, 'after chained %s (history %s)' % (method, prev), tag)
+                bad += result_is_independent(prop, grid, cur, got2, x, kept, tag, prev)
+                kept.append((got2, g2.copy(), 'chained %s #%d' % (method, len(kept))))
+            except Exception as e:
+                bad.append(('reuse raises %s %s' % (type(e).__name__, tag), 'chained %s raised %s: %s' % (method, type(e).__name__, e)))
         if op['op'] == 'fwd' and op['dtype'] == 'c128':
-            last_fwd = (wf_field(cur, x), g)
+            last_fwd = (wf_field(cur, x), g.copy())
         prev += '>' + op['op'] + ('(c64)' if op['dtype'] == 'c64' else '')
     bad += grid_unchanged(grid, gsnap)
     if observe is not None and last_fwd is not None:
@@ -589,12 +698,39 @@ def oracle_session(sess, observe=None):
     return bad
 
 
+def results_still_valid(kept, when, tag):
+    bad = []
+    for wfres, snapshot, label in kept:
+        now = np.asarray(wfres.electric_field)
+        if now.shape != snapshot.shape or not np.array_equal(now, snapshot):
+            bad.append(('result-overwritten ' + tag, 'the wavefront returned by %s changed %s' % (label, when)))
+            break
+    return bad
+
+
+def result_is_independent(prop, grid, cur, got, x, kept, tag, prev):
+    bad = []
+    g = np.asarray(got.electric_field)
+    if any(np.shares_memory(g, np.asarray(k[0].electric_field)) for k in kept):
+        bad.append(('result-aliases-earlier-result ' + tag, 'a returned field shares memory with a field returned earlier (history %s)' % prev))
+    if np.shares_memory(g, np.asarray(x)):
+        bad.append(('result-aliases-input ' + tag, 'the returned field shares memory with the input field'))
+    try:
+        ff = prop.get_instance_data(grid, None, cur['lam']).fourier_filter
+        internals = [v for v in vars(ff).values() if isinstance(v, np.ndarray)]
+    except Exception:
+        internals = []
+    if any(np.shares_memory(g, v) for v in internals):
+        bad.append(('result-aliases-internal-array ' + tag, 'the returned field is a view of an internal array of the propagator (history %s)' % prev))
+    return bad
+
+
 def session_head(sess):
     lines = [setup_line(sess['case'])]
     for op in sess['ops']:
         if op['op'] == 'set':
             v = op['value']
-            lines.append('C04 set %s %s' % (op['name'], str(int(v)) if op['name'] == 'num_oversampling' else rat(v)))
+            lines.append('C04 set %s %s' % (op['name'], _vtext(v, integer=(op['name'] == 'num_oversampling'))))
     lines.append('C04 info')
     return lines
 
@@ -625,13 +761,20 @@ def run(ctx):
                 ctx.count('aliased-delta-zero')
             ctx.count('regime:' + ('impulse-response' if reg['ir'] else ('stated' if reg['stated'] else 'tf-but-pixel<lambda/2')))
             ctx.count('wf:' + case['wf'])
-            ctx.count('q=1,s=1' if (case['q'] == 1.0 and case['s'] == 1 and case['kind'] == 'fresnel') else 'padded-or-oversampled')
+            ctx.count('q=1,s=1' if unpadded(case) else 'padded-or-oversampled')
+            ctx.count('zero_padding-spelling:%s%s' % (case.get('qspell') or 'float', '/per-axis' if isinstance(case['q'], list) else ''))
+            ctx.count('num_oversampling-spelling:%s%s' % (case.get('sspell') or 'int', '/per-axis' if isinstance(case['s'], list) else ''))
+            mm = exact_regime(case)['M']
+            if mm[0] == case['dims'][0] and mm[1] != case['dims'][1]:
+                ctx.count('padding:y-only(contiguous crop)')
+            elif mm[0] != case['dims'][0] and mm[1] == case['dims'][1]:
+                ctx.count('padding:x-only')
             ctx.count('z:' + ('0' if case['z'] == 0 else ('+' if case['z'] > 0 else '-')))
             if case['kind'] == 'angular' and reg['minrad'] < 0:
                 ctx.count('angular:evanescent-sampled' + ('-in-stated-regime' if reg['stated'] else ''))
             if obs.get('additive'):
                 ctx.count('additivity-checked')
-            sig = (case['kind'], tuple(case['dims']), reg['ir'], reg['stated'], case['q'], case['s'], case['wf'], case['z'] > 0, case['n'])
+            sig = (case['kind'], tuple(case['dims']), reg['ir'], reg['stated'], _vkey(case['q']), _vkey(case['s']), case['wf'], case['z'] > 0, case['n'])
             ctx.case({k: case[k] for k in ('kind', 'dims', 'delta', 'lam', 'z', 'n', 'q', 's', 'wf')} if case['z'] != 0 else None,
                      nontrivial_key=sig if case['z'] != 0 else None)
             if 'prop' not in obs:
